@@ -5,7 +5,7 @@ import ServiceModel.Proofs.StepLemmas
 namespace SM
 
 /-- unfold an operation and split every branch -/
-macro "op_split" f:ident : tactic => `(tactic| (unfold $f; dsimp only; repeat' split))
+macro "op_split" f:ident : tactic => `(tactic| (unfold $f; (try dsimp only); repeat' split))
 
 theorem slash_shape {s s1 : State} {r : ReqId} {svc : SvcName} {p : Addr} {e : List Effect}
     (h : slash s r svc p = .done s1 e) :
